@@ -31,4 +31,16 @@ CHECKS = {
         "note": "Trusted: interpreter back end (the 4-D element-wise kernels cannot be built by the installed pystencils, so they are unbound); identity checked to 64 eps for SSP-RK3 (runtime float stage weights), exactly for Euler kernels.",
         "technique": "basis enumeration of the full step operator vs polynomial in the library's own flux operator; exact-arithmetic enumeration over velocity sign patterns",
     },
+    "C12": {
+        "text": "Exhaustive within bounds, exact arithmetic: the identities (div curl = 0; 2-D curl of a stream function divergence-free and curl-curl = wide five-point negative Laplacian; forcing update = prefactor * library curl; penalised update = forcing update of the difference) are linear in the field, so they are decided on a grid by the unit impulses; every impulse (component x cell) of non-cubic grids is pushed through the real wrapper closures on Fraction arrays and compared with ==. The 3-D simulator's own divergence monitor is additionally driven after a curl-type update.",
+        "design_ref": "DESIGN.md section 5 C12, section 4.2",
+        "note": "Trusted: interpreter exact mode on captured kernels (bound by conformance replay); enumerated grid shapes only.",
+        "technique": "basis enumeration (all unit impulses) in exact rational arithmetic through the real kernel wrappers",
+    },
+    "C04": {
+        "text": "Exhaustive within bounds: (a) the face-flux identity is checked on the captured front/back ENO3 kernels for every ordered pair of face velocities of the alphabet (all sign patterns, exact ties, signed zeros, denormals) and every nodal impulse, on every axis in 2-D and 3-D, in exact arithmetic and IEEE double; (b) telescoping of every conservative operator is checked for every interior impulse in exact arithmetic through the public wrappers; (c) a deviation-bounded lattice over simulator configurations and field patterns checks the grid sum across a real time_step.",
+        "design_ref": "DESIGN.md section 5 C04, sections 4.1 and 4.2",
+        "note": "Trusted: interpreter (bound by conformance replay); (c) is small-scope over the listed alphabets with a rounding tolerance of 64 eps times the sum of absolute terms.",
+        "technique": "exhaustive enumeration of velocity-pair x impulse lattices on captured kernels (exact) + deviation-bounded configuration lattice on the real simulators",
+    },
 }
